@@ -276,18 +276,21 @@ Record decl : Type := mkDecl {
   d_conds : sent;
   d_psds : sent;
   d_ftem : list ftempl;
+  d_own : sent;                               (* own constraints / LMIs of the functions, in sending order *)
   d_ptem : list (list edict)
 }.
 Definition decl_of (s : pst) : decl :=
   mkDecl (map (dict_of_eh (es s)) (metrics s)) (map (item_of (es s)) (conds s))
-         (map (item_of (es s)) (psds s)) (ftem s) (ptem s).
+         (map (item_of (es s)) (psds s)) (ftem s) (map (item_of (es s)) (own_refs s)) (ptem s).
 Definition sent_of (d : decl) (o : nat) : sent :=
   map (fun m => SC (fst (c_le [(KF o, 1%Q)] m)) Ineq) (d_metrics d)
-  ++ d_conds d ++ d_psds d ++ flat_map items_of_ftempl (d_ftem d) ++ flat_map items_of_ptempl (d_ptem d).
+  ++ d_conds d ++ d_psds d ++ flat_map items_of_ftempl (d_ftem d) ++ d_own d
+  ++ flat_map items_of_ptempl (d_ptem d).
 
 (** the references held by the PEP point to existing objects (invariant of every run, below) *)
 Definition closed (s : pst) : Prop :=
-  Forall (eh_ok (es s)) (metrics s) /\ Forall (item_ok (es s)) (conds s) /\ Forall (item_ok (es s)) (psds s).
+  Forall (eh_ok (es s)) (metrics s) /\ Forall (item_ok (es s)) (conds s) /\ Forall (item_ok (es s)) (psds s)
+  /\ Forall (item_ok (es s)) (own_refs s).
 
 Lemma prepare_spec s : closed s ->
   let s1 := prepare s in
@@ -295,14 +298,15 @@ Lemma prepare_spec s : closed s ->
   /\ lpv (es s1) = lpv (es s) /\ lev (es s1) = lev (es s) ++ [None]
   /\ map (item_of (es s1)) (wsent s1) = sent_of (decl_of s) (length (lev (es s)))
   /\ Forall (item_ok (es s1)) (wsent s1)
-  /\ metrics s1 = metrics s /\ conds s1 = conds s /\ psds s1 = psds s /\ ftem s1 = ftem s /\ ptem s1 = ptem s.
+  /\ metrics s1 = metrics s /\ conds s1 = conds s /\ psds s1 = psds s /\ ftem s1 = ftem s /\ ptem s1 = ptem s
+  /\ fown s1 = fown s.
 Proof.
-  intros (Cm & Cc & Cp). cbv zeta. unfold prepare.
+  intros (Cm & Cc & Cp & Co). cbv zeta. unfold prepare.
   set (o := length (lev (es s))). set (st0 := new_leafE (es s)).
   destruct (gen_functions st0 (ftem s)) as [st1 fs] eqn:H1.
   destruct (gen_partitions st1 (ptem s)) as [st2 ps] eqn:H2.
   destruct (mk_conss st2 (map (metric_row st2 o) (metrics s))) as [st3 ms] eqn:H3.
-  cbn [es wsent metrics conds psds ftem ptem].
+  cbn [es wsent metrics conds psds ftem ptem fown].
   apply gen_functions_spec in H1 as (L1 & S1 & I1 & O1).
   apply gen_partitions_spec in H2 as (L2 & S2 & I2 & O2).
   apply mk_conss_spec in H3 as (L3 & S3 & I3 & O3).
@@ -313,20 +317,22 @@ Proof.
   destruct S1 as [S1a S1b], S2 as [S2a S2b], S3 as [S3a S3b].
   split; [exact L03|]. split; [rewrite S3a, S2a, S1a; reflexivity|].
   split; [rewrite S3b, S2b, S1b; reflexivity|]. split; [|split; [|repeat split]].
-  - unfold sent_of, decl_of. cbn [d_metrics d_conds d_psds d_ftem d_ptem].
-    rewrite !map_app. f_equal; [|f_equal; [|f_equal; [|f_equal]]].
+  - unfold sent_of, decl_of. cbn [d_metrics d_conds d_psds d_ftem d_ptem d_own].
+    rewrite !map_app. f_equal; [|f_equal; [|f_equal; [|f_equal; [|f_equal]]]].
     + rewrite I3, !map_map. apply map_ext_in. intros m Hm. unfold metric_row. cbn [snd c_le].
       rewrite (dict_of_eh_mono (es s) st2) by (try exact L02; rewrite Forall_forall in Cm; apply Cm, Hm).
       reflexivity.
     + exact (map_item_of_mono _ _ _ L03 Cc).
     + exact (map_item_of_mono _ _ _ L03 Cp).
     + rewrite (map_item_of_mono st1 st3 _ L13 O1). exact I1.
+    + exact (map_item_of_mono _ _ _ L03 Co).
     + rewrite (map_item_of_mono st2 st3 _ L3 O2). exact I2.
   - repeat (apply Forall_app; split).
     + exact O3.
     + exact (Forall_mono_item _ _ _ L03 Cc).
     + exact (Forall_mono_item _ _ _ L03 Cp).
     + exact (Forall_mono_item _ _ _ L13 O1).
+    + exact (Forall_mono_item _ _ _ L03 Co).
     + exact (Forall_mono_item _ _ _ L3 O2).
 Qed.
 
